@@ -210,7 +210,12 @@ let run_auth (input : Sexp.t) (impl : Sexp.t) : Verdict.t =
     cls = Printf.sprintf "%s_%s_cwd%d%s%s%s%s" (alg_name alg) form (int_of_n cwd)
         (if init = None then "" else "_init") (if started then "" else "_loaderr")
         (if rollback then "_apierr" else "") (if long then "_long" else "");
-    model = (match mouts with None -> Sexp.A "loaderr" | Some l -> Sexp.L (List.map sx_out l)) }
+    model = (match mouts with None -> Sexp.A "loaderr" | Some l -> Sexp.L (List.map sx_out l));
+    why = (if oracle then "" else match failing with
+        | Some OFile -> "file_differs_from_accounts" | Some OReload -> "restart_loads_other_accounts"
+        | Some (OAuth _) -> "hook_decision" | Some (OValidate _) -> "validate_decision"
+        | Some (OUpdate _) -> "update" | Some (ODelete _) -> "delete" | Some (OGet _) -> "get" | Some (OList _) -> "list"
+        | Some (OChdir _) -> "chdir" | None -> "start") }
 
 (* ---- suite authwire ---- *)
 let strs_of k x = List.map str_of_sx (Sexp.field k x)
@@ -234,7 +239,7 @@ let run_authwire (input : Sexp.t) (impl : Sexp.t) : Verdict.t =
   let agree = ref true and oracle = ref true in
   let fail_am = ref 0 and fail_other = ref 0 in
   let accepted = ref [] and mouts = ref [] in
-  let n_ok = ref 0 and n_rej = ref 0 and n_stray = ref 0 and n_am = ref 0 in
+  let n_ok = ref 0 and n_rej = ref 0 and n_stray = ref 0 and n_am = ref 0 and n_lost = ref 0 and n_open = ref 0 in
   let s = ref s1 in
   List.iter2 (fun st out ->
       match Sexp.list st with
@@ -250,7 +255,7 @@ let run_authwire (input : Sexp.t) (impl : Sexp.t) : Verdict.t =
         let has k = match Sexp.field_opt k st with Some (_ :: _) -> true | _ -> false in
         let pre = has "pre" in
         if pre || has "post" || has "late" then incr n_stray;
-        let first = match Sexp.list out with [_; f; _] -> f | _ -> failwith "sock out" in
+        let first = match Sexp.list out with [_; f; e] -> (if e = Sexp.A "open" && f <> Sexp.L [Sexp.A "connack"; Sexp.A "0"] then incr n_open); f | _ -> failwith "sock out" in
         let code = match first with
           | Sexp.L [Sexp.A "connack"; c] -> Some (int_of_sx c)
           | _ -> None in
@@ -260,8 +265,13 @@ let run_authwire (input : Sexp.t) (impl : Sexp.t) : Verdict.t =
         if plain_connect then begin
           let m = broker_connect h bv allow0 alg (!s).s_tab c in
           mouts := (match m with None -> Sexp.A "accept" | Some e -> Sexp.L [Sexp.A "refuse"; sx_n e]) :: !mouts;
-          let icode = match code with Some 0 -> Some None | Some e -> Some (Some (n_of_int e)) | None -> None in
-          if icode <> Some m then agree := false;
+          (* the error CONNACK races with the shutdown of the connection's writer and may be lost:
+             compared are accept/refuse and, when a CONNACK arrived, its code *)
+          (match code, m with
+           | Some 0, None -> ()
+           | Some e, Some e' when e <> 0 && n_of_int e = e' -> ()
+           | None, Some _ -> incr n_lost
+           | _, _ -> agree := false);
           if connect_servable allow0 c then begin
             let want_ok = c19_connect_ok h bv alg (!s).s_tab c (if acc then None else Some (n_of_int 1)) in
             if not want_ok then begin
@@ -278,18 +288,23 @@ let run_authwire (input : Sexp.t) (impl : Sexp.t) : Verdict.t =
       | _ -> failwith "step") steps outs;
   let want_sessions = List.sort compare ("observer" :: !accepted) in
   let insp = Sexp.L (Sexp.field "inspect" impl) in
+  let fin = Sexp.L (Sexp.field "final" impl) in
+  (* the services hold exactly what the accepted clients did; the observer (subscribed to "#")
+     received the publish of the authenticated publisher and nothing before it *)
   let inert =
     strs_of "sessions" insp = want_sessions && strs_of "clients" insp = want_sessions
     && strs_of "subs" insp = ["observer|#"] && strs_of "retained" insp = []
-    && Sexp.field "observer_saw" impl = [] in
-  let fin = Sexp.L (Sexp.field "final" impl) in
-  let live = (try strs_of "observer_got" fin = ["ok/t"] && strs_of "retained" fin = ["ok/t"] with _ -> false) in
+    && (try strs_of "observer_got" impl = ["ok/t"] with _ -> false) in
+  let live = (try strs_of "retained" fin = ["ok/t"] with _ -> false) in
   if not inert then (agree := false; oracle := false; incr fail_other);
   if not live then agree := false;
   let kf = if !oracle then "-" else if !fail_other = 0 && !fail_am > 0 then "kf_authmethod_present" else "-" in
   { Verdict.agree = !agree; oracle = !oracle; kf;
     nontrivial = !n_ok > 0 && !n_rej > 0 && !n_stray > 0;
-    cls = Printf.sprintf "%s_ok%d_rej%d%s%s%s" (alg_name alg) (min !n_ok 3) (min !n_rej 3)
+    cls = Printf.sprintf "%s_ok%d_rej%d%s%s%s%s%s" (alg_name alg) (min !n_ok 3) (min !n_rej 3)
         (if !n_stray > 0 then "_stray" else "") (if !n_am > 0 then "_authmethod" else "")
+        (if !n_lost > 0 then "_connacklost" else "") (if !n_open > 0 then "_leftopen" else "")
         (if bool_of_sx (Sexp.field1 "stats_anon" insp) then "_anonstats" else "");
-    model = Sexp.L (List.rev !mouts) }
+    model = Sexp.L (List.rev !mouts);
+    why = (if !oracle then "" else
+             Printf.sprintf "authmethod_refused:%d_other:%d%s" !fail_am !fail_other (if inert then "" else "_state_touched")) }
